@@ -642,9 +642,10 @@ def replay_partner(subset, ql):
             if ta == tb or ta not in FA or tb not in FA:
                 continue
             tl = ', '.join(('Into(u8)' if t == 'Into' else t) for t in (ta, tb))
+            dm = '#[educe(Default)] ' if 'Default' in (ta, tb) else ''
             for src in (f'#[educe({tl})]\npub struct Ty {{ #[educe({FA[ta]})] #[educe({FA[tb]})] x: u8, y: u8 }}',
                         f'#[educe({tl})]\npub struct Ty(#[educe({FA[ta]}, {FA[tb]})] u8, u8);',
-                        f'#[educe({tl})]\npub enum Ty {{ #[educe(Default)] A(#[educe({FA[ta]}, {FA[tb]})] u8, u8), B {{ #[educe({FA[ta]})] #[educe({FA[tb]})] x: u8, y: u8 }} }}'):
+                        f'#[educe({tl})]\npub enum Ty {{ {dm}A(#[educe({FA[ta]}, {FA[tb]})] u8, u8), B {{ #[educe({FA[ta]})] #[educe({FA[tb]})] x: u8, y: u8 }} }}'):
                 reqs.append(_Raw(f'p{len(reqs)}', src))
     if 'PartialEq' in subset and 'Eq' in subset:
         for tb in subset:
